@@ -242,11 +242,23 @@ fn timer_loop(shared: Arc<Shared>) {
 impl Drop for Timer {
     fn drop(&mut self) {
         let timer = self.id;
+        // (this also runs while a session thread unwinds from a panic, possibly with the queue lock poisoned by a
+        // panic of the timer task: a destructor must not panic itself)
         let dropped: Vec<Callback> = {
-            let mut q = self.shared.q.lock().unwrap();
+            let mut q = match self.shared.q.lock() {
+                Ok(q) => q,
+                Err(p) => p.into_inner(),
+            };
             q.stop = true;
             q.items.drain(..).map(|x| x.2).collect()
         };
+        if std::thread::panicking() {
+            let _ = rec::try_with(|r| {
+                r.push(RecKind::TimerDrop { timer, discarded: 0 });
+            });
+            drop(dropped);
+            return;
+        }
         rec::with(|r| {
             let mut n = 0;
             for it in r.timer_items.values_mut() {
